@@ -235,7 +235,9 @@ def render(fmt, items, style=0):
             out.append(it[1])
     body = "".join(out)
     if fmt == "android":
-        return '<?xml version="1.0" encoding="utf-8"?>\n<resources>\n' + body + "</resources>\n"
+        attrs = "".join(' %s="%s"' % (it[1], it[2]) for it in items if it[0] == "attr")
+        return '<?xml version="1.0" encoding="utf-8"?>\n<resources' + attrs + '>\n' + body + \
+            "</resources>\n"
     return body
 
 
@@ -255,6 +257,11 @@ def gen_items(fmt, rng, nkeys, lang="L", blanks=True):
             items.append(("blank",))
     if fmt == "ini":
         items.append(("sec", "Strings"))
+    if fmt == "android" and rng.random() < 0.4:
+        # attributes of <resources>: sticky DocumentWrapper entries keyed by the attribute name
+        items.append(("attr", "xmlns:xliff", "urn:x%d" % rng.randint(1, 2)))
+        if rng.random() < 0.3:
+            items.append(("attr", "tools", "t%d" % rng.randint(1, 2)))
     for k in keys:
         r = rng.random()
         if loose and r < 0.18:
@@ -305,6 +312,12 @@ def edit_items(fmt, rng, items, nkeys, lang="L", blanks=True):
         elif loose and r < 0.94:                    # add a standalone comment or a blank line
             pos = rng.randint(insert_floor(fmt, items), len(items))
             items.insert(pos, ("com", rng.choice(COMMENTS)) if rng.random() < 0.6 else ("blank",))
+        elif r < 0.96 and any(it[0] == "attr" for it in items):   # change / drop an attribute
+            i = rng.choice([i for i, it in enumerate(items) if it[0] == "attr"])
+            if rng.random() < 0.5:
+                items[i] = ("attr", items[i][1], items[i][2] + "n")
+            else:
+                del items[i]
         else:                                       # remove a standalone comment / blank line
             idx = [i for i, it in enumerate(items) if it[0] in ("com", "blank")
                    and i >= insert_floor(fmt, items)]
@@ -317,7 +330,7 @@ def insert_floor(fmt, items):
     """first position where records may be inserted (after header items)"""
     n = 0
     for it in items:
-        if it[0] in ("lic",) or (it[0] == "sec" and it[1] == "Strings") or \
+        if it[0] in ("lic", "attr") or (it[0] == "sec" and it[1] == "Strings") or \
                 (it[0] == "pi" and it[1] == "filter emptyLines"):
             n = items.index(it) + 1
     if fmt == "inc" and n and n < len(items) and items[n][0] == "blank":
@@ -465,7 +478,7 @@ def oracle_merge(chk, case, out_text):
     want_ids, want_vals = expected_merge(fmt, versions)
     entries = walk_bytes(name, out_text.encode("utf-8"))
     got = parsed_items(fmt, entries)
-    desc = {"fmt": fmt, "versions": case["texts"]}
+    desc = {"fmt": fmt, "versions": case["texts"], "items": versions}
     junk = [g for g in got if g[0] == "junk"]
     if junk:
         chk.fail("merge-reparse-junk", desc, {"output": out_text, "junk": junk})
@@ -727,18 +740,49 @@ def run_witnesses(chk):
 
 
 def replay(chk, path):
+    """re-run the recorded cases: oracle failures through the oracle, disagreements
+    through implementation and model; 1 if anything still fails"""
     data = json.load(open(path))
     rc = 0
+    sub = common.Check(chk.prop, chk.tier, chk.seed)
+    sub.known = []
     for f in data.get("failures", []):
         c = f["case"]
-        if "versions" in c and "fmt" in c:
+        before = len(sub.failures)
+        if "items" in c:
             res, text = impl_merge(FNAME[c["fmt"]], c["versions"])
-            print("signature", f["signature"], "versions", c["versions"], "merged", repr(text))
+            if text is None:
+                sub.fail("merge-raises", c, res)
+            else:
+                oracle_merge(sub, {"fmt": c["fmt"], "items": c["items"], "texts": c["versions"]}, text)
+        elif "versions" in c:
+            run_witnesses(sub)
+        elif "name" in c:
+            res, _ = impl_merge(c["name"], ["a = b\n"])
+            if res != [1, 11]:
+                sub.fail("merge-unsupported-not-refused", c, res)
+        still = sub.failures[before:]
+        print("recorded", f["signature"], "->", "still fails: " + still[0]["signature"] if still else "passes now")
+        for x in still[:1]:
+            print(json.dumps(x, indent=1, default=str)[:3000])
+        rc |= bool(still)
+    dis = data.get("disagreements", [])
+    if dis:
+        model = Model("C15")
+        for d in dis:
+            c = d["case"]
+            if isinstance(c, dict) and "versions" in c:
+                name = FNAME[c["fmt"]]
+                res, _ = impl_merge(name, c["versions"])
+                out = model.call([(0, [s2l(name), model_versions(name, c["versions"])])])[0]
+                print("suite", d["suite"], "case", c, "impl", res[:1], "model", out[:1],
+                      "agree" if res == out else "DISAGREE")
+                rc |= res != out
+            else:
+                print("disagreement", d)
+                rc = 1
+    for o in data.get("broken_obligations", []):
+        if o["kind"] in ("theorem", "build", "translator", "hygiene"):
+            print("broken obligation:", o["name"], o["detail"][-500:])
             rc = 1
-        else:
-            print("case", c, f["detail"])
-            rc = 1
-    for d in data.get("disagreements", []):
-        print("disagreement", d)
-        rc = 1
     return int(rc)
